@@ -48,8 +48,10 @@ def obligations(tier: str) -> list[dict]:
         for sh in ('map2', 'nested'):
             obs.append(ob('msg/mgr2x1/%s/K1' % sh, 'mgr2x1', [sh], 'tables', 1, 200))
         obs.append(ob('msg/flat2/next_mix/K2', 'flat2', ['next_mix'], 'tables', 2, 300))
-        for sh in ('submit', 'map2'):
+        for sh in ('submit', 'map2', 'next3', 'nested'):
             obs.append(ob('line/flat1/%s/K1' % sh, 'flat1', [sh], 'tables', 1, 200, line=True, maxrank=1))
+        for sh in ('two_seq', 'map2', 'next_mix', 'nested', 'two_rev'):
+            obs.append(ob('line/flat2/%s/K1' % sh, 'flat2', [sh], 'tables', 1, 240, line=True, maxrank=1))
     else:
         for topo in ('flat1', 'flat2', 'flat3'):
             for sh in ('submit', 'map2', 'map3', 'next3', 'next_mix', 'nested', 'nested_map', 'two_rev', 'two_seq'):
